@@ -1,6 +1,7 @@
 import PrysmVerif.Generated.C11
 import PrysmVerif.Lemmas.C11Maps
 import PrysmVerif.Lemmas.C11Py
+import PrysmVerif.Lemmas.C11Real
 import Mathlib.Data.Set.Function
 /-!
 # C11 — Zernike (Noll, Fringe, ANSI) and XY single-index conventions are bijections onto the valid orders
@@ -120,7 +121,11 @@ theorem gen_nollToNm (j : Int) (hj : 1 ≤ j) : Generated.C11.nollToNm j = some 
         have t := two_mul_tri (n + 1)
         have : (n + 1) * (n + 1 + 1) = (n + 1) * (n + 2) := by ring
         rw [Py.int_half_even _ (by omega)]; unfold tri; rw [this]
-      rw [hser]
+      have hser2 : (n + 1) * (n + 2) / 2 = tri (n + 1) := by
+        have : (n + 1) * (n + 1 + 1) = (n + 1) * (n + 2) := by ring
+        unfold tri; rw [this]
+      try simp only [hser]
+      try simp only [hser2]
       have hres : j - tri (n + 1) - 1 = p - (n + 1) := by rw [tri_succ]; omega
       rw [hres]
       rcases Int.emod_two_eq_zero_or_one n with hpar | hpar
@@ -419,6 +424,41 @@ theorem xy_bij :
   · rintro _ ⟨q, hq, rfl⟩
     obtain ⟨a, b⟩ := xy_surjective q.1 q.2 hq.1 hq.2
     exact ⟨_, a, b⟩
+
+/-! ## 3. the floating-point idioms: what the exact-integer reading means over the reals -/
+
+/-- the translator's reading of `np.ceil(np.sqrt(D))` is the ceiling of the real square root, every `D` -/
+theorem ceil_sqrt_exact (D : Nat) : ⌈Real.sqrt (D : ℝ)⌉ = pyCeilSqrt (D : Int) := by
+  unfold pyCeilSqrt; rw [ceilSqrt_eq_ceil_real]; simp
+
+/-- the translator's reading of `np.ceil((b + np.sqrt(D)) / c)` is the ceiling of the real quotient, every `b, D, c > 0` -/
+theorem ceil_half_sqrt_exact (b : Int) (D c : Nat) (hc : 0 < c) :
+    ⌈((b : ℝ) + Real.sqrt (D : ℝ)) / (c : ℝ)⌉ = pyCeilDiv (b + pyCeilSqrt (D : Int)) (c : Int) :=
+  ceil_div_sqrt_real b D c hc
+
+/-- the radial order computed by (the translation of) `ansi_j_to_nm` is the source formula `⌈(-3 + √(9 + 8j))/2⌉` over the reals -/
+theorem ansi_n_is_source_formula (j : Nat) :
+    (Generated.C11.ansiJToNm (j : Int)).1 = ⌈((-3 : ℝ) + Real.sqrt (9 + 8 * (j : ℝ))) / 2⌉ := by
+  have h := ceil_div_sqrt_real (-3) (9 + 8 * j) 2 (by decide)
+  push_cast at h
+  rw [h, gen_ansiJToNm _ (Int.natCast_nonneg j)]
+  unfold Model.C11.ansiJToNm
+  simp only
+  exact (ansi_row _ (Int.natCast_nonneg j)).symm
+
+/-- the radial order computed by (the translation of) `noll_to_nm` is the source formula `⌈(-1 + √(1 + 8j))/2⌉ - 1` over the reals -/
+theorem noll_n_is_source_formula (j : Nat) (hj : 1 ≤ j) (q : Int × Int)
+    (h : Generated.C11.nollToNm (j : Int) = some q) :
+    q.1 = ⌈((-1 : ℝ) + Real.sqrt (1 + 8 * (j : ℝ))) / 2⌉ - 1 := by
+  have hr := ceil_div_sqrt_real (-1) (1 + 8 * j) 2 (by decide)
+  push_cast at hr
+  have hj' : (1 : Int) ≤ j := by exact_mod_cast hj
+  rw [gen_nollToNm _ hj'] at h
+  cases h
+  rw [hr]
+  unfold Model.C11.nollToNm
+  simp only
+  exact (noll_row _ hj').symm
 
 /-! ## non-vacuity: concrete instances -/
 example : Valid 4 (-2) ∧ ¬ Valid 4 3 ∧ ¬ Valid 2 4 := by decide
